@@ -251,6 +251,13 @@ pub async fn run_sender_with_config(
                     }
                     _ = housekeeping_timer.tick() => {
                         let classic = config.mode().is_classic();
+                        // The liveness timeout is runtime-tunable; housekeeping
+                        // is where it is enforced, so it must not depend on a
+                        // scheduling decision having refreshed the per-link copy.
+                        let conn_timeout_ms = config.snapshot().conn_timeout_ms;
+                        for conn in connections.iter_mut() {
+                            conn.set_conn_timeout_ms(conn_timeout_ms);
+                        }
                         if let Err(err) = handle_housekeeping(
                             &mut connections,
                             &mut conn_io,
